@@ -490,6 +490,13 @@ variable {U : Tag → Type}
 /-- `unsmoothed_wmc` at result type `U t` -/
 def Query.wmc (t : Tag) (S : SROps (U t)) (w : Weights (U t)) : Query U := .fold t (wmcAlg S w)
 
+/-- `DDNNFPtr::evaluate`: `unsmoothed_wmc` in the Boolean semiring (at a tag whose type is `Bool`) -/
+def Query.evaluate (t : Tag) (h : U t = Bool) (inst : Assign) : Query U := .fold t (h ▸ evalAlg inst)
+
+/-- the trait's `semantic_hash::<P>(map)`: `unsmoothed_wmc` in `FiniteField<P>` -/
+def Query.semanticHash (t : Tag) (h : U t = Nat) (P : Nat) (w : Weights Nat) : Query U :=
+  .fold t (h ▸ wmcAlg (Sem.ffOps P) w)
+
 inductive Answer (U : Tag → Type) where
   | val (t : Tag) (v : U t)
   | num (n : Nat)
